@@ -15,6 +15,40 @@ partial def spansOf : AstRead.SExp → List Span
   | .node _ fs => fs.flatMap fun f => spansOf f.2
   | .list xs => xs.flatMap spansOf
 
+def atSpan : AstRead.SExp → Option Span
+  | .node _ fs => (fs.find? (·.1 == "@")).bind fun f => AstRead.toSpan f.2
+  | _ => none
+
+def isSpanAtom (s : String) : Option Span :=
+  if s.contains ':' then AstRead.toSpan (.atom s) else none
+
+def ordered : List Span → Bool
+  | a :: b :: rest => a.stop ≤ b.start && ordered (b :: rest)
+  | _ => true
+
+/-- C10 on a successfully parsed tree, in one bottom-up pass: returns the extent of all
+    positions recorded below the value (not counting the `@` pseudo-fields, the results of
+    `Span()`) and the violated clauses: every node's `Span()` must be that extent, and list
+    elements must come in source order without overlap. -/
+partial def extentAndClauses : AstRead.SExp → Span × List String
+  | .atom s => match isSpanAtom s with
+    | some sp => (if sp.isValid then sp else .null, [])
+    | none => (.null, [])
+  | .list xs =>
+    let rs := xs.map extentAndClauses
+    let ats := (xs.filterMap atSpan).filter Span.isValid
+    (rs.foldl (fun u r => Span.union u r.1) .null,
+     (if ordered ats then [] else ["c10-siblings-out-of-order"]) ++ rs.flatMap (·.2))
+  | .node ty fs =>
+    let rs := (fs.filter (·.1 != "@")).map fun f => extentAndClauses f.2
+    let ext := rs.foldl (fun u r => Span.union u r.1) .null
+    let here := match atSpan (.node ty fs) with
+      | some at_ => if at_ == ext then [] else ["c10-node-span-not-extent:" ++ ty]
+      | none => []
+    (ext, here ++ rs.flatMap (·.2))
+
+def nodeSpanClauses (s : AstRead.SExp) : List String := (extentAndClauses s).2
+
 def spanInside (n : Nat) (s : Span) : Bool := !s.isValid || (s.stop ≤ (n : Int))
 
 structure ImplParse where
@@ -57,14 +91,17 @@ def clauses (src : Bytes) (impl : String) (mustParse : Bool) : List String :=
       | some stmts =>
         if stmts.length != groups.length then ["c15-statement-count"]
         else
-          (stmts.zip groups).flatMap fun (st, g) =>
+          ((stmts.zip groups).flatMap fun (st, g) =>
             match Grammar.unparseStmt st with
             | none => ["c08-incomplete-tree"]
             | some us =>
               (if Grammar.accounts false us g then
                 (if Grammar.accounts true us g then [] else ["c10-position"])
                else ["c08-unaccounted"]) ++
-              (if Grammar.wfStmt st then [] else ["c07-grouping"])
+              (if Grammar.wfStmt st then [] else ["c07-grouping"])) ++
+          (match r.stmts.mapM AstRead.parseSExp with
+           | some ss => ss.flatMap nodeSpanClauses
+           | none => [])
     else
       let n := src.length
       (if mustParse then ["c07-valid-rejected"] else []) ++
